@@ -21,7 +21,8 @@ SHARDS = {"quick": 8, "thorough": 16}
 RULE = ("cases = (line ending out of 5, list of <=30 ops: add_writer(k) (new "
         "or already registered), remove_writer(k), raw write(text) with "
         "non-ASCII text and trailing blanks, move/comment/annotate calls, "
-        "flush, teardown (after which writers may be re-added)) over a pool "
+        "flush, teardown (after which writers may be re-added), the line ending "
+        "changed on the live builder) over a pool "
         "of 6 writers of 5 kinds; non-trivial = >=2 registered writers of "
         "different kinds and a change of the set between two emits; distinct "
         "by SHA-1")
@@ -181,6 +182,11 @@ def run_case(case, cl=None):
                 emits += 1
                 changed_since_emit = False
                 check_all(where, only_memory=True)
+            elif name == "set_eol":
+                # the line ending is changed on the live builder
+                cfg2, eol = eol_of(op["eol"])
+                g.format.set_line_endings(cfg2)
+                cl.add("line_ending_changed_mid_history")
             elif name == "flush":
                 g.flush()
                 for i in registered:
@@ -258,7 +264,8 @@ def strategy(n):
         st.tuples(st.sampled_from(["move", "comment", "annotate"]), text,
                   st.integers(-50, 50)).map(
             lambda t: {"op": "call", "call": t[0], "text": t[1], "v": float(t[2])}),
-        st.just({"op": "flush"}), st.just({"op": "teardown"}))
+        st.just({"op": "flush"}), st.just({"op": "teardown"}),
+        st.sampled_from(["lf", "crlf", "cr"]).map(lambda e: {"op": "set_eol", "eol": e}))
     return st.fixed_dictionaries({
         "eol": st.sampled_from(["lf", "crlf", "cr", "rawlf", "rawcrlf"]),
         "ops": st.lists(op, min_size=1, max_size=n)})
